@@ -151,7 +151,12 @@ func (d *Decoder) readStruct() (interface{}, error) {
 	tag, err := d.readTag()
 	if err != nil {
 		hlog.Debugf("reading tag err:%v", err)
-		return nil, nil //ignore
+		// the stream ends where a value must start: an error, never a silent null
+		// (a null here would make every enclosing list / map loop spin forever)
+		if err == io.EOF {
+			err = io.ErrUnexpectedEOF
+		}
+		return nil, err
 	}
 
 	switch {
@@ -179,7 +184,12 @@ func (d *Decoder) ReadData() (interface{}, error) {
 	tag, err := d.readTag()
 	if err != nil {
 		hlog.Debugf("reading tag err:%v", err)
-		return nil, nil //ignore
+		// the stream ends where a value must start: an error, never a silent null
+		// (a null here would make every enclosing list / map loop spin forever)
+		if err == io.EOF {
+			err = io.ErrUnexpectedEOF
+		}
+		return nil, err
 	}
 
 	switch {
